@@ -12,7 +12,7 @@ from pycfmodel.model.types import (
     ResolvableBytesOrList,
     ResolvableDatetimeOrList,
     ResolvableIntOrList,
-    ResolvableIPOrList,
+    ResolvableIPOrStrOrList,
     ResolvableStrOrList,
 )
 from pycfmodel.utils import convert_to_list, is_resolvable_dict, not_ip, regex_from_cf_string
@@ -233,18 +233,18 @@ class StatementCondition(CustomModel):
     ForAnyValueDateGreaterThanIfExists: Optional[Dict[str, ResolvableDatetimeOrList]] = None
     ForAnyValueDateGreaterThanEqualsIfExists: Optional[Dict[str, ResolvableDatetimeOrList]] = None
 
-    IpAddress: Optional[Dict[str, Union[ResolvableIPOrList, ResolvableStrOrList]]] = None
-    NotIpAddress: Optional[Dict[str, Union[ResolvableIPOrList, ResolvableStrOrList]]] = None
-    IpAddressIfExists: Optional[Dict[str, Union[ResolvableIPOrList, ResolvableStrOrList]]] = None
-    NotIpAddressIfExists: Optional[Dict[str, Union[ResolvableIPOrList, ResolvableStrOrList]]] = None
-    ForAllValuesIpAddress: Optional[Dict[str, Union[ResolvableIPOrList, ResolvableStrOrList]]] = None
-    ForAllValuesNotIpAddress: Optional[Dict[str, Union[ResolvableIPOrList, ResolvableStrOrList]]] = None
-    ForAnyValueIpAddress: Optional[Dict[str, Union[ResolvableIPOrList, ResolvableStrOrList]]] = None
-    ForAnyValueNotIpAddress: Optional[Dict[str, Union[ResolvableIPOrList, ResolvableStrOrList]]] = None
-    ForAllValuesIpAddressIfExists: Optional[Dict[str, Union[ResolvableIPOrList, ResolvableStrOrList]]] = None
-    ForAllValuesNotIpAddressIfExists: Optional[Dict[str, Union[ResolvableIPOrList, ResolvableStrOrList]]] = None
-    ForAnyValueIpAddressIfExists: Optional[Dict[str, Union[ResolvableIPOrList, ResolvableStrOrList]]] = None
-    ForAnyValueNotIpAddressIfExists: Optional[Dict[str, Union[ResolvableIPOrList, ResolvableStrOrList]]] = None
+    IpAddress: Optional[Dict[str, ResolvableIPOrStrOrList]] = None
+    NotIpAddress: Optional[Dict[str, ResolvableIPOrStrOrList]] = None
+    IpAddressIfExists: Optional[Dict[str, ResolvableIPOrStrOrList]] = None
+    NotIpAddressIfExists: Optional[Dict[str, ResolvableIPOrStrOrList]] = None
+    ForAllValuesIpAddress: Optional[Dict[str, ResolvableIPOrStrOrList]] = None
+    ForAllValuesNotIpAddress: Optional[Dict[str, ResolvableIPOrStrOrList]] = None
+    ForAnyValueIpAddress: Optional[Dict[str, ResolvableIPOrStrOrList]] = None
+    ForAnyValueNotIpAddress: Optional[Dict[str, ResolvableIPOrStrOrList]] = None
+    ForAllValuesIpAddressIfExists: Optional[Dict[str, ResolvableIPOrStrOrList]] = None
+    ForAllValuesNotIpAddressIfExists: Optional[Dict[str, ResolvableIPOrStrOrList]] = None
+    ForAnyValueIpAddressIfExists: Optional[Dict[str, ResolvableIPOrStrOrList]] = None
+    ForAnyValueNotIpAddressIfExists: Optional[Dict[str, ResolvableIPOrStrOrList]] = None
 
     Null: Optional[Dict[str, ResolvableBool]] = None
     ForAllValuesNull: Optional[Dict[str, ResolvableBool]] = None
